@@ -360,8 +360,19 @@ class ModelCompiler:
                     elif term not in extracted_model.cells:
                         terms_to_copy.append(term)
 
-        for term in terms_to_copy:
-            extracted_model.cells[term] = copy.deepcopy(model.cells[term])
+        # Follow the dependencies transitively, through cells and ranges.
+        while terms_to_copy:
+            term = terms_to_copy.pop()
+            if term in model.ranges and term not in extracted_model.ranges:
+                extracted_model.ranges[term] = copy.deepcopy(
+                    model.ranges[term])
+                terms_to_copy.extend(
+                    addr for row in model.ranges[term].cells for addr in row)
+            elif term in model.cells and term not in extracted_model.cells:
+                extracted_model.cells[term] = cell = copy.deepcopy(
+                    model.cells[term])
+                if cell.formula is not None:
+                    terms_to_copy.extend(cell.formula.terms)
 
         extracted_model.build_code()
 
